@@ -37,7 +37,7 @@ def export(dst):
 
 
 def cmd_import(ident, src):
-    for letter in ("A", "B", "C", "D", "E", "F", "G", "H", "I", "J", "K", "L"):
+    for letter in ("A", "B", "C", "D", "E", "F", "G", "H", "I", "J", "K", "L", "M", "N"):
         d = os.path.join(ROOT, "seeded", "%s-%s" % (ident, letter.lower()))
         if not os.path.exists(os.path.join(src, letter + ".diff")):
             continue
